@@ -105,6 +105,8 @@ def lockstep(sh, st, text, prog, inp, pre, start, max_steps, klass):
     st.inc('traces')
     st.inc('transitions', n)
     case = case_json(text, inp, pre, start, max_steps)
+    if len(st.samples) < 3 and len(text) < 200:
+        st.sample({'prog': text, 'stdin': inp, 'pre_state': case['pre'], 'steps_compared': n, 'end': end[0]})
 
     def bad(what, exp, obs):
         st.violate(Violation('C01', 'exec', klass + ':' + what, case, exp, obs))
